@@ -87,6 +87,15 @@ def step (d : DSt) (ts : List String) : DSt × List String :=
       else if d.closed then (d, ["wr err=closed"])
       else ({ d with pending := true }, [if bad.isSome then "wr err=invalid" else "wr err=nil"])
     | _, _, _, _ => (d, ["bad-op"])
+  | some "wr0" =>
+    -- WriteRTCP of a batch that feeds nothing (a nil slice, an empty slice, packets that are no transport
+    -- feedback): no event reaches the estimator; after Close the closed error like every call (`after_close`
+    -- quantifies over all feedback lists, the empty one included)
+    match lookup fs "what", d.cfg with
+    | some w, some _ =>
+      if w != "nil" && w != "none" && w != "other" then (d, ["bad-op"])
+      else (d, [if d.closed then "wr err=closed" else "wr err=nil"])
+    | _, _ => (d, ["bad-op"])
   | some "gate" =>
     -- the change callback blocks (`open=0`) until the harness lets it go (`open=1`): every change is still
     -- handed to its own callback invocation (`Gcc.publish` appends one per change), so at quiescence nothing is
